@@ -162,6 +162,17 @@ def run(ctx, model):
             for op in ("|", "-"):
                 for order in orders[:2]:
                     jobs.append((hy, neg, "".join(sorted(ma)), ta, "".join(sorted(mb)), tb, op, order))
+    # the two ends of the code-point space: `chr(ord(c) - 1)` / `chr(ord(c) + 1)` only exist inside it, so an algorithm that
+    # computes a neighbour it does not need fails (ValueError) exactly on operands touching U+0000 / U+10FFFF
+    for edge in ("\x00\x01\x02\x03", "\U0010fffc\U0010fffd\U0010fffe\U0010ffff"):
+        for neg in (False, True):
+            lst = forms(edge, W, neg)
+            pairs = list(itertools.product(lst, lst))
+            if ctx.tier == "quick":
+                pairs = pairs[::3] if not neg else pairs[::11]
+            for (ma, ta), (mb, tb) in pairs:
+                for op in ("|", "-"):
+                    jobs.append((edge, neg, "".join(sorted(ma)), ta, "".join(sorted(mb)), tb, op, orders[0]))
     # wide operands: one interval against two or three disjoint intervals over a nine-character alphabet, so that a
     # single operation merges / splits several intervals at once; every worklist order matters here
     wide = "abcdefghi"
@@ -195,6 +206,8 @@ def run(ctx, model):
         f = f_or if op == "|" else f_sub
         want = (ma | mb) if op == "|" else (ma - mb)
         inp = f"{ta} {op} {tb} [set order {order}]"
+        if not inp.isprintable():
+            inp = inp.encode("unicode_escape").decode("ascii")
         ctx.instance("R-SETALG", key=inp, sample=f"{inp} -> {payload!r}")
         if kind == "incomplete":
             if "fuel exhausted" in payload:
@@ -317,7 +330,8 @@ def _shape(ma, mb, alpha, op):
     """Order-type key of a failing pair: positions within the alphabet (stable across alphabets of equal size)."""
     pa = "".join(str(alpha.index(c)) for c in sorted(ma, key=alpha.index))
     pb = "".join(str(alpha.index(c)) for c in sorted(mb, key=alpha.index))
-    return f"{{{pa}}} {op} {{{pb}}}"
+    edge = " @U+0000" if alpha[:1] == "\x00" else " @U+10FFFF" if alpha[-1:] == "\U0010ffff" else ""   # the ends of the code-point space are not an order type
+    return f"{{{pa}}} {op} {{{pb}}}{edge}"
 
 
 def _inv_shape(text):
